@@ -16,13 +16,13 @@ CONSTANTS GlyphCounts,   \* set of glyph counts to draw from
           Focus          \* "random":    every field from its full domain (for -simulate)
                          \* "layout":    exhaustive over outline kind x GSUB kind x GPOS kind x GDEF with rich script lists,
                          \*              everything else at its default
+                         \* "shapes":    exhaustive over glyf table sizes x raw-table layouts (TrueType), multi-subtable cmap
                          \* "onefactor": exhaustive, one scalar field at a time through its full domain (extremes
                          \*              included) x outline kind, everything else at its default
 
 VARIABLES step, cfg
 vars == <<step, cfg>>
 
-NSteps == 34
 
 \* the abstract font of FontCycleOps that a configuration denotes
 Abs(c, fl) == [ fam |-> c.fam, width |-> c.width, weight |-> c.weight,
@@ -44,76 +44,77 @@ Versions == { <<0, 0>>, <<1, 0>>, <<1, 32768>>, <<2, 66>>, <<1, 4096>>, <<0, 655
 Instants == { <<-226, 4825216>>, <<-125, 14307201>>, <<0, 0>>, <<59, 10144256>>, <<127, 16777215>>, <<128, 0>>,
               <<255, 16777215>>, <<15103, 16007551>> }
 
-Field(i) == CASE i = 1  -> "vary"    [] i = 2  -> "wantdom" [] i = 3  -> "kind"   [] i = 4  -> "fds"
-              [] i = 5  -> "cmap"    [] i = 6  -> "comp"    [] i = 7  -> "names"  [] i = 8  -> "n"
-              [] i = 9  -> "gsub"    [] i = 10 -> "gpos"    [] i = 11 -> "gdef"   [] i = 12 -> "tags"
-              [] i = 13 -> "scripts" [] i = 14 -> "weight"  [] i = 15 -> "width"  [] i = 16 -> "angle"
-              [] i = 17 -> "fam"     [] i = 18 -> "times"   [] i = 19 -> "tinst"  [] i = 20 -> "frac"
-              [] i = 21 -> "ver"     [] i = 22 -> "strs"    [] i = 23 -> "upm"    [] i = 24 -> "asc"
-              [] i = 25 -> "desc"    [] i = 26 -> "gap"     [] i = 27 -> "cap"    [] i = 28 -> "xh"
-              [] i = 29 -> "ulp"     [] i = 30 -> "ult"     [] i = 31 -> "perm"   [] i = 32 -> "flags"
-              [] i = 33 -> "fin"
+FieldNames == << "vary", "wantdom", "kind", "fds", "cmap", "comp", "names", "n", "glyfsize", "rawtabs", "gsub", "gpos", "gdef", "tags", "scripts", "weight", "width", "angle", "fam", "times", "tinst", "frac", "ver", "strs", "upm", "asc", "desc", "gap", "cap", "xh", "ulp", "ult", "perm", "flags", "fin" >>
+Field(i) == FieldNames[i]
+NSteps == Len(FieldNames) + 1
 
 \* scalar fields of the font that "onefactor" takes through their domains
 Scalars == {"weight", "width", "angle", "fam", "times", "tinst", "ver", "strs", "upm", "asc", "desc", "gap", "cap",
             "xh", "ulp", "ult", "perm", "cmap"}
 
 \* full domain of field number i, given the fields chosen so far
-Domain(i, c) ==
-  CASE i = 1  -> IF Focus = "onefactor" THEN Scalars ELSE {"-"}
-    [] i = 2  -> BOOLEAN
-    [] i = 3  -> IF Focus = "random" THEN {"ttf", "cff", "cid"} ELSE {"ttf", "cff"}
-    [] i = 4  -> IF c.kind = "cid" THEN {1, 3} ELSE {1}
-    [] i = 5  -> {"4", "12", "none"}
-    [] i = 6  -> IF c.kind = "ttf" THEN {0, 1, 3} ELSE {0}
-    [] i = 7  -> IF c.kind = "ttf" THEN BOOLEAN ELSE {FALSE}
-    [] i = 8  -> GlyphCounts
-    [] i = 9  -> IF Focus = "layout" THEN {"liga", "multi"} ELSE {"none", "liga", "multi"}
-    [] i = 10 -> {"none", "pair", "multi"}
-    [] i = 11 -> BOOLEAN
-    [] i = 12 -> IF c.gsub = "none" /\ c.gpos = "none" THEN {"x"}
+Domain(f, c) ==
+  CASE f = "vary"  -> IF Focus = "onefactor" THEN Scalars ELSE {"-"}
+    [] f = "wantdom"  -> BOOLEAN
+    [] f = "kind"  -> IF Focus = "random" THEN {"ttf", "cff", "cid"} ELSE {"ttf", "cff"}
+    [] f = "fds"  -> IF c.kind = "cid" THEN {1, 3} ELSE {1}
+    [] f = "cmap"  -> {"4", "12", "none", "multi"}
+    [] f = "comp"  -> IF c.kind = "ttf" THEN {0, 1, 3} ELSE {0}
+    [] f = "names"  -> IF c.kind = "ttf" THEN BOOLEAN ELSE {FALSE}
+    [] f = "n"  -> GlyphCounts
+    \* exact glyf table sizes around the loca format switch (offsets / 2 in 16 bits) and around 128k
+    [] f = "glyfsize" -> IF c.kind = "ttf" /\ c.n >= 30 /\ c.n <= 257
+                           THEN {0, 65534, 65536, 131070, 131072, 131074} ELSE {0}
+    \* raw cvt/fpgm/gasp/prep tables of lengths 2, 1, 0, 3 mod 4: separate slices or sub-slices of one buffer
+    [] f = "rawtabs"  -> IF c.kind = "ttf" THEN {"none", "sep", "shared"} ELSE {"none"}
+    [] f = "gsub"  -> IF Focus = "layout" THEN {"liga", "multi"} ELSE {"none", "liga", "multi"}
+    [] f = "gpos" -> {"none", "pair", "multi"}
+    [] f = "gdef" -> BOOLEAN
+    [] f = "tags" -> IF c.gsub = "none" /\ c.gpos = "none" THEN {"x"}
                  ELSE IF c.wantdom THEN {"x"} ELSE {"x", "noext", "ambig"}
-    [] i = 13 -> IF c.tags = "x" THEN {"simple", "multi"} ELSE {"simple"}
-    [] i = 14 -> {0, 1, 250, 400, 600, 650, 700, 800, 1000}
-    [] i = 15 -> {0, 1, 3, 5, 9}
-    [] i = 16 -> {0, -12582912, 5, 1605, 9437184}
-    [] i = 17 -> {"plain", "bold", "italic", "semibold"}
-    [] i = 18 -> {"c", "m", "both"}
-    [] i = 19 -> Instants
-    [] i = 20 -> BOOLEAN
-    [] i = 21 -> Versions
-    [] i = 22 -> {"ascii", "latin1", "bmp", "astral", "empty"}
-    [] i = 23 -> {16, 1000, 2048, 16383, 16384}
-    [] i = 24 -> {-32768, 0, 800, 32767}
-    [] i = 25 -> {-32768, -200, 0, 32767}
-    [] i = 26 -> {-32768, 0, 90, 32767}
-    [] i = 27 -> {1, 700, 32767}
-    [] i = 28 -> {1, 500, 32767}
-    [] i = 29 -> {-131072, -400, -261, 0, 131068}      \* quarter units: -32768, -100, -65.25, 0, 32767
-    [] i = 30 -> {-200, 0, 200, 203, 131068}           \* quarter units: -50, 0, 50, 50.75, 32767
-    [] i = 31 -> 0..3
-    [] i = 32 -> {fl \in FlagSets : c.wantdom => InDom(Abs(c, fl))}
-    [] i = 33 -> {0}     \* one successor only: the terminal state (and its Emit) is reached once per behaviour
+    [] f = "scripts" -> IF c.tags = "x" THEN {"simple", "multi"} ELSE {"simple"}
+    [] f = "weight" -> {0, 1, 250, 400, 600, 650, 700, 800, 1000}
+    [] f = "width" -> {0, 1, 3, 5, 9}
+    [] f = "angle" -> {0, -12582912, 5, 1605, 9437184}
+    [] f = "fam" -> {"plain", "bold", "italic", "semibold"}
+    [] f = "times" -> {"c", "m", "both"}
+    [] f = "tinst" -> Instants
+    [] f = "frac" -> BOOLEAN
+    [] f = "ver" -> Versions
+    [] f = "strs" -> {"ascii", "latin1", "bmp", "astral", "empty"}
+    [] f = "upm" -> {16, 1000, 2048, 16383, 16384}
+    [] f = "asc" -> {-32768, 0, 800, 32767}
+    [] f = "desc" -> {-32768, -200, 0, 32767}
+    [] f = "gap" -> {-32768, 0, 90, 32767}
+    [] f = "cap" -> {1, 700, 32767}
+    [] f = "xh" -> {1, 500, 32767}
+    [] f = "ulp" -> {-131072, -400, -261, 0, 131068}      \* quarter units: -32768, -100, -65.25, 0, 32767
+    [] f = "ult" -> {-200, 0, 200, 203, 131068}           \* quarter units: -50, 0, 50, 50.75, 32767
+    [] f = "perm" -> 0..3
+    [] f = "flags" -> {fl \in FlagSets : c.wantdom => InDom(Abs(c, fl))}
+    [] f = "fin" -> {0}     \* one successor only: the terminal state (and its Emit) is reached once per behaviour
 
-Default(i, c) ==
-  CASE i = 1  -> "-"      [] i = 2  -> FALSE   [] i = 3  -> "ttf"   [] i = 4  -> 1
-    [] i = 5  -> "4"      [] i = 6  -> 0       [] i = 7  -> c.kind = "ttf"  [] i = 8 -> 30
-    [] i = 9  -> "liga"   [] i = 10 -> "pair"  [] i = 11 -> TRUE    [] i = 12 -> "x"
-    [] i = 13 -> IF Focus = "layout" THEN "multi" ELSE "simple"
-    [] i = 14 -> 400      [] i = 15 -> 5       [] i = 16 -> 0       [] i = 17 -> "plain"
-    [] i = 18 -> "both"   [] i = 19 -> <<59, 10144256>>             [] i = 20 -> FALSE
-    [] i = 21 -> <<1, 32768>>  [] i = 22 -> "ascii" [] i = 23 -> 1000 [] i = 24 -> 800
-    [] i = 25 -> -200     [] i = 26 -> 90      [] i = 27 -> 700     [] i = 28 -> 500
-    [] i = 29 -> -400     [] i = 30 -> 200     [] i = 31 -> 0
-    [] i = 32 -> [k \in 1..6 |-> k = 1]      \* regular
-    [] i = 33 -> 0
+Default(f, c) ==
+  CASE f = "vary"  -> "-"      [] f = "wantdom"  -> FALSE   [] f = "kind"  -> "ttf"   [] f = "fds"  -> 1
+    [] f = "cmap"  -> IF Focus = "shapes" THEN "multi" ELSE "4"      [] f = "comp"  -> 0       [] f = "names"  -> c.kind = "ttf"  [] f = "n" -> 30
+    [] f = "glyfsize" -> 0  [] f = "rawtabs" -> "none"
+    [] f = "gsub"  -> "liga"   [] f = "gpos" -> "pair"  [] f = "gdef" -> TRUE    [] f = "tags" -> "x"
+    [] f = "scripts" -> IF Focus = "layout" THEN "multi" ELSE "simple"
+    [] f = "weight" -> 400      [] f = "width" -> 5       [] f = "angle" -> 0       [] f = "fam" -> "plain"
+    [] f = "times" -> "both"   [] f = "tinst" -> <<59, 10144256>>             [] f = "frac" -> FALSE
+    [] f = "ver" -> <<1, 32768>>  [] f = "strs" -> "ascii" [] f = "upm" -> 1000 [] f = "asc" -> 800
+    [] f = "desc" -> -200     [] f = "gap" -> 90      [] f = "cap" -> 700     [] f = "xh" -> 500
+    [] f = "ulp" -> -400     [] f = "ult" -> 200     [] f = "perm" -> 0
+    [] f = "flags" -> [k \in 1..6 |-> k = 1]      \* regular
+    [] f = "fin" -> 0
 
 Varied(i, c) ==
   \/ Focus = "random"
   \/ Focus = "layout" /\ Field(i) \in {"kind", "gsub", "gpos", "gdef"}
   \/ Focus = "onefactor" /\ (Field(i) \in {"vary", "kind"} \/ Field(i) = c.vary)
+  \/ Focus = "shapes" /\ Field(i) \in {"kind", "glyfsize", "rawtabs"}
 
-Choices(i, c) == IF Varied(i, c) THEN Domain(i, c) ELSE {Default(i, c)}
+Choices(i, c) == IF Varied(i, c) THEN Domain(Field(i), c) ELSE {Default(Field(i), c)}
 
 Init == step = 1 /\ cfg = <<>>
 
@@ -125,7 +126,7 @@ Spec == Init /\ [][Next]_vars
 
 Done == step = NSteps
 Out(c) == [ kind |-> c.kind, fds |-> c.fds, cmap |-> c.cmap, comp |-> c.comp, names |-> c.names, n |-> c.n,
-            gsub |-> c.gsub, gpos |-> c.gpos, gdef |-> c.gdef, tags |-> c.tags, scripts |-> c.scripts,
+            glyfsize |-> c.glyfsize, rawtabs |-> c.rawtabs, gsub |-> c.gsub, gpos |-> c.gpos, gdef |-> c.gdef, tags |-> c.tags, scripts |-> c.scripts,
             reg |-> c.flags[1], bold |-> c.flags[2], ital |-> c.flags[3], obl |-> c.flags[4],
             serif |-> c.flags[5], script |-> c.flags[6],
             weight |-> c.weight, width |-> c.width, angle |-> c.angle, fam |-> c.fam, times |-> c.times,
@@ -137,5 +138,5 @@ Out(c) == [ kind |-> c.kind, fds |-> c.fds, cmap |-> c.cmap, comp |-> c.comp, na
 Emit == Done => PrintT(<<"CASE", ToJson(Out(cfg))>>)
 
 \* the flag choice is never empty: every (weight, width, family, angle, kind) has consistent flags
-FlagsExist == step = 32 => Choices(32, cfg) # {}
+FlagsExist == (step < NSteps /\ Field(step) = "flags") => Choices(step, cfg) # {}
 =============================================================================
